@@ -189,6 +189,8 @@ def binop(op, a, b):
 
     if ka == "string" and kb == "string":
         if op == "+":
+            if len(a) + len(b) > 2_000_000:
+                raise Unspecified("huge value")
             return a + b
         if op in REL:
             x, y = a.encode("utf-8"), b.encode("utf-8")
@@ -203,12 +205,14 @@ def binop(op, a, b):
         raise RuntimeErr("chars")
     if ka == "array" and kb == "array":
         if op == "+":
+            if len(a.items) + len(b.items) > 500_000:
+                raise Unspecified("huge value")
             return Arr(a.items + b.items)
         raise RuntimeErr("arrays")
     if ka == "string" and kb == "int" and op == "*":
         if b < 0:
             raise RuntimeErr("negative repetition")
-        if len(a.encode("utf-8")) * b > 50_000_000:
+        if len(a.encode("utf-8")) * b > 2_000_000:
             raise Unspecified("huge repetition")
         return a * b
     if ka == "int" and kb == "string" and op == "*":
